@@ -213,6 +213,11 @@ func init() {
 		run: func(c *Ctx) {
 			runG7(c.Repo, c.Rep)
 			runG11(c.Repo, c.Rep)
+			// a call is handled by the plugin with the longest matching prefix of *this run*: every prefix is set before the
+			// plugins are constructed and sorted (also a premise of "a function generated for exactly its argument types")
+			if mainFn := c.Repo.lookup("main.main"); mainFn != nil {
+				g8Prefix(c.Repo, c.Rep, mainFn)
+			}
 			g14ReservedProvenance(c)
 			g14AddNameUsed(c.Repo, c.Rep)
 			g8EveryRecordedCallRegistered(c.Repo, c.Rep)
